@@ -359,7 +359,17 @@ def tlsLine (toks : List String) : String :=
   -- `cert=weak`: an identity the TLS library refuses to build an acceptor from: `listen` fails, nobody is served
   if kvOf toks "cert" == some "weak" then
     "refused clear=0 answered=0 served=0 | refused | -" else
-  let o := Tls.outcome c ['3', '8', '6', '8']
+  -- the implementation column comes from the general glue (`Tls.gOutcome`: any address text, any certificate) applied to the
+  -- address the scenario really uses and to the names the scenario's certificate really carries (`wn=` picks among the
+  -- "trusted, wrong name" certificates of the harness); the specification column is the table
+  let port := ((kvOf toks "port").filter (· != "0")).getD "3868"
+  let address := Tls.addressOf addr port.toList
+  let names : List (List Char) := match kvOf toks "cert", kvOf toks "wn", addr with
+    | some "wrongname", some "1", .host => [Tls.nOther, Tls.nIp4, Tls.nIp6]            -- the right addresses, asked for by name
+    | some "wrongname", some "1", _ => [Tls.nLocalhost, Tls.nOther, Tls.nOtherIp]     -- the right name, asked for by address
+    | some "wrongname", _, _ => [Tls.nOther, Tls.nOtherIp]
+    | _, _, _ => [Tls.nLocalhost, Tls.nIp4, Tls.nIp6]
+  let o := Tls.gOutcome c.clientTls c.verify c.serverTls address ⟨Tls.trusted cert, names⟩
   let cls := match o with | .session => "session" | .plain => "plain" | .refused => "refused"
   let answered := o != .refused
   cls ++ " clear=" ++ bit (Tls.clearText c) ++ " answered=" ++ bit answered ++ " served=" ++ bit answered ++
